@@ -49,9 +49,19 @@ def _normalize_title_quotes(title: str) -> str:
 
 def _link_destination(dest: str) -> str:
     """
-    A destination that is empty or contains whitespace is only valid inside `<...>`.
+    A destination that is empty, contains whitespace or has unbalanced parentheses is only
+    valid inside `<...>`.
     """
-    if dest == "" or any(c.isspace() for c in dest):
+    depth = 0
+    balanced = True
+    for c in dest:
+        if c == "(":
+            depth += 1
+        elif c == ")":
+            depth -= 1
+            if depth < 0:
+                balanced = False
+    if dest == "" or any(c.isspace() for c in dest) or depth != 0 or not balanced:
         return f"<{dest}>"
     return dest
 
